@@ -20,20 +20,24 @@ EXTENDS ClassGroup, TLC
 CONSTANTS Lo, Hi, Extra, UMax
 VARIABLE n
 
-Init == n \in {m \in Lo..Hi : IsFundamental(m)} \cup Extra
-Next == UNCHANGED n
+\* The discriminants are reached in two steps (0 -> -m -> m) so that the invariants, guarded by n > 0, are
+\* evaluated by TLC's worker threads (large stacks, in parallel) and not while computing initial states.
+Cases == {m \in Lo..Hi : IsFundamental(m)} \cup Extra
+Init == n = 0
+Next == \/ n = 0 /\ n' \in {0 - m : m \in Cases}
+        \/ n < 0 /\ n' = 0 - n
 
 HeegnerSet == {3, 4, 7, 8, 11, 19, 43, 67, 163}
-Heegner == (ClassNumber(n) = 1) <=> (n \in HeegnerSet)
+Heegner == n > 0 => ((ClassNumber(n) = 1) <=> (n \in HeegnerSet))
 
-CountAgree ==
+CountAgree == n > 0 =>
   /\ HCount(n) = ClassNumber(n)
   /\ \A f \in ReducedForms(n) : IsReducedForm(n, f[1], f[2], f[3])
-  /\ <<1, n % 2, (n + n % 2) \div 4>> \in ReducedForms(n)      \* the unit form
+  /\ <<1, n % 2, (n + (n % 2)) \div 4>> \in ReducedForms(n)      \* the unit form
 
 Known == [x \in {10148, 424708, 1411012, 2402548} |->
             CASE x = 10148 -> 60 [] x = 424708 -> 64 [] x = 1411012 -> 124 [] x = 2402548 -> 176]
-KnownH == n \in DOMAIN Known => (HCount(n) = Known[n] /\ ClassNumber(n) = Known[n])
+KnownH == (n > 0 /\ n \in DOMAIN Known) => (HCount(n) = Known[n] /\ ClassNumber(n) = Known[n])
 
 \* ---- form arithmetic on the reduced forms of -n
 BF(f) == [a |-> FromInt(f[1]), b |-> IFromInt(f[2])]
@@ -41,7 +45,7 @@ NumPrimeDivisors(m) == Cardinality({p \in 2..m : m % p = 0 /\ IsPrimeI(p)})
 RECURSIVE Pow2I(_)
 Pow2I(k) == IF k = 0 THEN 1 ELSE 2 * Pow2I(k - 1)
 
-GroupLaws ==
+GroupLaws == n > 0 =>
   LET N  == FromInt(n)
       RF == {BF(f) : f \in ReducedForms(n)}
       h  == Cardinality(RF)
@@ -80,5 +84,5 @@ WitnessSoundAt(u) ==
             /\ (unram \ {i}) # {} => ~WitnessTrivial(N, U, Flip(i), bp)
             /\ ArithTrivial(N, Flip(i), bp)
                  <=> (PrimeFormF(N, ps[i], bp[i], 2 * Val(m, ps[i])) = UnitF(N))
-WitnessSound == \A u \in 0..UMax : WitnessSoundAt(u)
+WitnessSound == n > 0 => \A u \in 0..UMax : WitnessSoundAt(u)
 =============================================================================
